@@ -540,6 +540,15 @@ func init() {
 			}
 			emit(1304, TU(0))
 			emit(1304, TU(4294967295))
+			for _, pl := range av1HostilePayloads() {
+				emit(1302, TList{TB(pl)})
+				emit(1303, TList{TB(pl)})
+				emit(1302, TList{TB([]byte{0x40, 0x32, 0x01}), TB(pl)}) // behind an open fragment
+			}
+			for _, st := range av1HostileStreams() {
+				emit(1301, TI(100), TB(st))
+				emit(1301, TI(5), TB(st))
+			}
 			step := 16
 			if tier == "thorough" {
 				step = 1
@@ -631,4 +640,47 @@ func init() {
 		},
 		Run: run,
 	})
+}
+
+// hostile LEB128 length fields: values from 2^56 up (9- and 10-byte encodings), which ReadLeb128
+// returns in full; as an element length or an obu_size they exceed every buffer, do not fit an int
+// from 2^63 on, and wrap a uint sum near 2^64
+func av1HostileLebs() [][]byte {
+	var out [][]byte
+	for _, v := range []uint64{1 << 56, 1<<62 + 5, 1<<63 - 1, 1 << 63, 1<<63 + 11, 1<<64 - 1, 1<<64 - 2, 1<<64 - 9, 1<<64 - 12, 1<<64 - 40} {
+		out = append(out, leb(v))
+	}
+	// non-canonical: ten continuation bytes and more
+	out = append(out, []byte{0xff, 0xff, 0xff, 0xff, 0xff, 0xff, 0xff, 0xff, 0xff, 0xff, 0x01}, []byte{0x80, 0x80, 0x80, 0x80, 0x80, 0x80, 0x80, 0x80, 0x80, 0x80, 0x80, 0x7f})
+	return out
+}
+
+// av1HostilePayloads are RTP payloads whose element length or obu_size field is such a value
+func av1HostilePayloads() [][]byte {
+	var out [][]byte
+	for _, l := range av1HostileLebs() {
+		for _, hdr := range []byte{0x00, 0x10, 0x20, 0x30, 0x80, 0x40, 0x08} {
+			out = append(out, append(append([]byte{hdr}, l...), 0x30, 0x01))
+			// a well-formed first element, then the hostile length
+			out = append(out, append(append([]byte{hdr, 0x02, 0x30, 0x07}, l...), 0x30, 0x01, 0x02))
+		}
+		// an OBU element of consistent length whose own obu_size field is hostile (W=1: no length field)
+		out = append(out, append(append([]byte{0x10, 0x32}, l...), 0xaa, 0xbb))
+		out = append(out, append(append(append([]byte{0x00}, byte(1+len(l)+2)), 0x32), append(append([]byte{}, l...), 0xaa, 0xbb)...))
+	}
+	return out
+}
+
+// av1HostileStreams are payloader inputs (low-overhead OBU streams) with such an obu_size
+func av1HostileStreams() [][]byte {
+	var out [][]byte
+	for _, l := range av1HostileLebs() {
+		out = append(out, append(append([]byte{0x32}, l...), 0xaa, 0xbb))
+		out = append(out, append(append([]byte{0x32, 0x01, 0x07, 0x36, 0x00, 0x00}, l...), 0xaa))
+		out = append(out, append(append([]byte{0x0a, 0x01, 0x05, 0x32}, l...), 0xaa, 0xbb, 0xcc))
+		// a temporal delimiter (skipped, not copied) whose obu_size steps the read offset backwards
+		out = append(out, append(append([]byte{0x12}, l...), 0x32, 0x01, 0x07))
+		out = append(out, append(append([]byte{0x0a}, l...), 0x01))
+	}
+	return out
 }
